@@ -506,6 +506,31 @@ def rule_matcher_loop_poll(ctx, rep, rid: str, budgets: bool = False, rid_budget
                     for x in g.own_nodes():
                         if isinstance(x, ast.Assign) and any(norm(t) == counter for t in x.targets):
                             probs.append(f"{g.qual} (reachable from the loop body) overwrites the shared step counter {counter} at line {x.lineno}: every nested assertion restarts the outer loop's step count, so neither the poll period nor the step budget is ever reached")
+        if counter is not None and not counter.startswith("self.") and not via_param:
+            # a local counter starts at 0 with every run of the function: where the function runs once per subject
+            # position (a search over start positions, a lookbehind over the positions before it), runs shorter than
+            # the poll period never ask for the deadline, however many of them there are
+            callers_in_loops = []
+            for cs in cg.sites:
+                if cs.kind == "resolved" and any(t is f for t in cs.targets) and cs.func.cls is f.cls:
+                    up = getattr(cs.call, "_parent", None)
+                    while up is not None and up is not cs.func.node:
+                        if isinstance(up, (ast.For, ast.While)):
+                            callers_in_loops.append((cs.func, cs.call.lineno))
+                            break
+                        up = getattr(up, "_parent", None)
+                    # a caller that is itself called from a loop (search -> _execute -> _run)
+                    for cs2 in cg.sites:
+                        if cs2.kind == "resolved" and any(t is cs.func for t in cs2.targets) and cs2.func.cls is f.cls:
+                            up2 = getattr(cs2.call, "_parent", None)
+                            while up2 is not None and up2 is not cs2.func.node:
+                                if isinstance(up2, (ast.For, ast.While)):
+                                    callers_in_loops.append((cs2.func, cs2.call.lineno))
+                                    break
+                                up2 = getattr(up2, "_parent", None)
+            if callers_in_loops:
+                g, ln = callers_in_loops[0]
+                probs.append(f"the poll is gated on the local `{counter}`, which starts at 0 with every call, and {f.name} is run from a loop over subject positions ({g.qual}, line {ln}): runs shorter than the poll period never ask for the deadline, so /(?<=b)/ on a long subject runs for minutes under any time limit")
         if probs:
             rep.bad(rid, key, f"matcher loop in {f.qual}: " + "; ".join(dict.fromkeys(probs)), loc)
         else:
